@@ -39,6 +39,7 @@ func (x *exec) collector() *collected {
 				if from != nil {
 					r.from = from.String()
 				}
+				scribble(from)
 			}
 			x.mu.Lock()
 			c.res = append(c.res, r)
@@ -166,6 +167,7 @@ func burst(kind string, total, readEvery int) func(x *exec, note func(string)) i
 					r := rres{err: err}
 					if err == nil {
 						r.data, r.from = string(buf[:nn]), from.String()
+						scribble(from)
 					}
 					col.res = append(col.res, r)
 					done = true
